@@ -122,6 +122,29 @@ def step (line : String) : String :=
         else s!"FAIL {o} (session {String.ofList ops})"
       | none => if fi.length == ops.length then "ok" else s!"FAIL session {String.ofList ops} stopped early: {impl}"
     s!"{mc}\t{impl}\t{verdict}"
+  | "forced" :: rest =>
+    -- the trace of yield points replayed label by label on the shutdown LTS; then the model's
+    -- prediction of the outcome from the state the trace leads to
+    let kind := (kv rest "kind").getD "?"
+    let q := ((kv rest "q").bind String.toNat?).getD 0
+    let qcap := if q == 0 then 1024 else q
+    let full := kind == "full"
+    let s0 : SSys := { qcap := qcap, queueLen := if full then qcap else 0, consumer := !full,
+                       da1First := da1FirstOf Gen.Conc.skeleton_Suspend, resumeClears := resumeClearsOf Gen.Conc.skeleton_Resume }
+    let out := (kv fi "out").getD "?"
+    let tr := ((kv fi "trace").getD "-")
+    let items := if tr == "-" then [] else tr.splitOn ","
+    let (conf, pred) := match replayTrace { s := s0 } items with
+      | .error e => (s!"conf=FAILED({e.replace " " "_"})", "?")
+      | .ok r =>
+        let sEnd := runToRest .libFirst 600 r.s
+        ("conf=ok", if allReturned sEnd && goroutinesDone sEnd && !sEnd.panicked then "ok" else "hang")
+    let verdict :=
+      if out == "ok" then "ok"
+      else if kind == "sig" then s!"FAIL Close from the input goroutine's signal arm never completes with sequences pending (forced schedule, {out})"
+      else if kind == "full" then s!"FAIL Close never returns while the event queue is full and input is pending (forced schedule, {out})"
+      else s!"FAIL forced schedule {kind}: {out}"
+    s!"out={pred} conf=ok\tout={out} {conf}\t{verdict}"
   | "fullclose" :: _ =>
     -- the LTS has a stuck state here (Witness/F53): both outcomes are runs of the model
     let out := fi.headD "?"
